@@ -62,7 +62,33 @@ var errVerifDied = errors.New("verif: process killed")
 type verifCursor struct {
 	rows [][]any
 	pos  int
+	open bool
 }
+
+// verifOpenCursors: result sets handed out and not yet closed (by Close, or by Next running
+// off the end, as database/sql does). Each one pins a pooled connection whose read lock
+// keeps every writer out: go-sqlite3 in the default journal mode answers the next
+// INSERT/UPDATE/DELETE with "database is locked".
+var verifOpenCursors = 0
+
+func (c *verifCursor) close() {
+	if c != nil && c.open {
+		c.open = false
+		verifOpenCursors--
+	}
+}
+
+// verifIdle: no result set of a finished database operation is still open (natively: no
+// pooled connection is still in use).
+func verifIdle(d *DB) bool {
+	if verif_symbolic() {
+		return verifOpenCursors == 0
+	}
+	return d.db.Stats().InUse == 0
+}
+
+const verifIdleLabel = "a finished database operation leaves no result set open (an open one keeps the database locked against every later write)"
+
 
 func verifUnquote(s string) string {
 	s = strings.TrimSpace(s)
@@ -310,6 +336,9 @@ func verifExec(q string, args []any) error {
 	if verifKillAfter > 0 {
 		verifKillAfter--
 	}
+	if verifOpenCursors > 0 {
+		return errors.New("database is locked")
+	}
 	q = strings.TrimSpace(q)
 	switch {
 	case strings.HasPrefix(q, "CREATE TABLE"):
@@ -544,6 +573,8 @@ func verifQuery(q string, args []any) (*sql.Rows, error) {
 	}
 	r := new(sql.Rows)
 	verifRowsOf[r] = cur
+	cur.open = true
+	verifOpenCursors++
 	return r, nil
 }
 
@@ -586,11 +617,18 @@ func verifStubRowsNext(r *sql.Rows) bool {
 	if c == nil {
 		return false
 	}
-	return c.pos < len(c.rows)
+	if c.pos >= len(c.rows) {
+		c.close()
+		return false
+	}
+	return true
 }
 
 //verif:stub (*database/sql.Rows).Close
-func verifStubRowsClose(r *sql.Rows) error { return nil }
+func verifStubRowsClose(r *sql.Rows) error {
+	verifRowsOf[r].close()
+	return nil
+}
 
 // Scan converts like database/sql.convertAssign for the kinds the code uses.
 //
@@ -705,6 +743,7 @@ func verifOpenDB() *DB {
 		verifTables = nil
 		verifKillAfter = -1
 		verifDied = false
+		verifOpenCursors = 0
 		d := &DB{db: new(sql.DB), existed: false}
 		if err := d.init(); err != nil {
 			panic(err)
@@ -728,6 +767,7 @@ func verifReopen() *DB {
 	if verif_symbolic() {
 		verifKillAfter = -1
 		verifDied = false
+		verifOpenCursors = 0 // the old process is gone, and its connections with it
 		return &DB{db: new(sql.DB), existed: true}
 	}
 	d, err := DatabaseNew(verifDBPath)
@@ -848,6 +888,7 @@ func H_c10_agent_roundtrip() {
 	a.Reason = "dead"
 	verif_assert(d.AgentUpdate(a) == nil, "marking a persisted session dead succeeds")
 	verif_assert(len(d.AgentAll()) == 0, "dead agents are not restored")
+	verif_assert(verifIdle(d), verifIdleLabel)
 	verif_witness()
 }
 
@@ -913,6 +954,7 @@ func H_c10_links() {
 			}
 		}
 	}
+	verif_assert(verifIdle(d), verifIdleLabel)
 	verif_witness()
 }
 
@@ -962,6 +1004,7 @@ func H_c10_listeners() {
 	}
 	verif_assert(len(all) == want, "no listener is restored that was not saved")
 	verif_assert(d.ListenerCount() == want, "listener count after the restart")
+	verif_assert(verifIdle(d), verifIdleLabel)
 	verif_witness()
 }
 
@@ -1012,5 +1055,6 @@ func H_c10_agent_text() {
 		}
 		verif_assert(got == text, "recorded metadata is restored byte for byte")
 	}
+	verif_assert(verifIdle(d), verifIdleLabel)
 	verif_witness()
 }
